@@ -378,6 +378,7 @@ func extractFacts(pkgs []*packages.Package, prog *ssa.Program, byPath map[string
 	sb.WriteString(bptFacts(p))
 	sb.WriteString(readPathFacts(p))
 	sb.WriteString(applierFacts(p))
+	sb.WriteString(txApiFacts(p))
 	// ---- mode check decision
 	sb.WriteString(modeFacts(p))
 	sb.WriteString(lockFacts(prog, sp))
@@ -686,12 +687,19 @@ func readPathFacts(p *packages.Package) string {
 // rotation, and the scan of the data files at Open: every condition (plain error tests left out), loop header,
 // switch tag, case clause and call statement — (file:function, kind, source text), in source order.
 func applierFacts(p *packages.Package) string {
-	want := map[string]map[string]bool{
-		"tx.go": {"buildTempBucketMetaIdx": true, "buildBucketMetaIdx": true, "buildTxIDRootIdx": true, "buildIdxes": true, "buildBPTreeIdx": true,
-			"buildSetIdx": true, "buildSortedSetIdx": true, "buildListIdx": true, "rotateActiveFile": true},
-		"db.go": {"parseDataFiles": true, "buildBPTreeIdx": true, "buildActiveBPTreeIdx": true, "buildOtherIdxes": true, "buildHintIdx": true,
-			"buildSetIdx": true, "buildSortedSetIdx": true, "buildListIdx": true, "getActiveFileWriteOff": true},
-	}
+	return collectStmts(p, applierWant, "applierStmts", "tx.go / db.go: the appliers of records to the indexes (at Commit and at Open), rotation, and the scan of the data files at Open: (file:function, kind, source text), in source order")
+}
+
+var applierWant = map[string]map[string]bool{
+	"tx.go": {"buildTempBucketMetaIdx": true, "buildBucketMetaIdx": true, "buildTxIDRootIdx": true, "buildIdxes": true, "buildBPTreeIdx": true,
+		"buildSetIdx": true, "buildSortedSetIdx": true, "buildListIdx": true, "rotateActiveFile": true},
+	"db.go": {"parseDataFiles": true, "buildBPTreeIdx": true, "buildActiveBPTreeIdx": true, "buildOtherIdxes": true, "buildHintIdx": true,
+		"buildSetIdx": true, "buildSortedSetIdx": true, "buildListIdx": true, "getActiveFileWriteOff": true},
+}
+
+// collectStmts prints, for the listed functions (nil set = every function of the file), every condition (plain
+// error tests left out), loop header, switch tag, case clause and call statement.
+func collectStmts(p *packages.Package, want map[string]map[string]bool, defName, doc string) string {
 	var items []string
 	if p != nil {
 		for _, f := range p.Syntax {
@@ -703,7 +711,7 @@ func applierFacts(p *packages.Package) string {
 			}
 			for _, d := range f.Decls {
 				fd, ok := d.(*ast.FuncDecl)
-				if !ok || fd.Body == nil || !set[fd.Name.Name] {
+				if !ok || fd.Body == nil || (set != nil && !set[fd.Name.Name]) {
 					continue
 				}
 				name := base + ":" + fd.Name.Name
@@ -750,6 +758,12 @@ func applierFacts(p *packages.Package) string {
 						} else {
 							add("case", strings.Join(es, ", "))
 						}
+					case *ast.ReturnStmt:
+						for _, res := range x.Results {
+							if ce, ok := res.(*ast.CallExpr); ok {
+								add("return", exprStr(p.Fset, ce))
+							}
+						}
 					case *ast.ExprStmt:
 						if ce, ok := x.X.(*ast.CallExpr); ok {
 							add("call", exprStr(p.Fset, ce))
@@ -769,7 +783,15 @@ func applierFacts(p *packages.Package) string {
 			}
 		}
 	}
-	return "/-- tx.go / db.go: the appliers of records to the indexes (at Commit and at Open), rotation, and the scan of the data files at Open: (file:function, kind, source text), in source order -/\ndef applierStmts : List (String × String × String) := [\n" + strings.Join(items, ",\n") + "]\n\n"
+	return "/-- " + doc + " -/\ndef " + defName + " : List (String × String × String) := [\n" + strings.Join(items, ",\n") + "]\n\n"
+}
+
+// txApiFacts: the transactional API of lists, sets and sorted sets and the key/value writes: what each call
+// validates and which record it queues.
+func txApiFacts(p *packages.Package) string {
+	return collectStmts(p, map[string]map[string]bool{"tx_list.go": nil, "tx_set.go": nil, "tx_zset.go": nil,
+		"tx_bptree.go": {"Put": true, "PutWithTimestamp": true, "Delete": true}, "tx.go": {"put": true, "checkTxIsClosed": true}},
+		"txApiStmts", "tx_list.go / tx_set.go / tx_zset.go and the key/value writes: conditions, loops and calls of the transactional API: (file:function, kind, source text), in source order")
 }
 
 // modeFacts: the two refusal conditions of checkEntryIdxMode, as printed source.
